@@ -1,8 +1,8 @@
 (* Proofs/C06_tiers.v — C06 parts 2-3: reachability in the beats-or-ties digraph ([has_path]),
    the structure of [tiers_of] in a semi-complete digraph, then the profile-level theorems
    (partition, domination, minimality, Smith set, Condorcet winner). *)
-From VK Require Import Base Core Pairwise PairwiseSpec.
-From VK.Proofs Require Import C12_expand Lib_rk Lib_sets C06_pairwise.
+From VK Require Import Base Core STV Pairwise Rules PairwiseSpec ScoreSpec.
+From VK.Proofs Require Import C12_expand Lib_rk Elect Lib_sets C06_pairwise.
 From Coq Require Import Permutation Lia Lqa Setoid Morphisms Relations Sorting.Sorted.
 
 (* ------------------------------------------------------------------ *)
@@ -291,4 +291,680 @@ Proof.
   apply (path_crossing_aux P a b Pdec Hr a); [apply hp_refl; exact Ha|exact Hna|exact Hb].
 Qed.
 
+(* ------------------------------------------------------------------ *)
+(** * Tiers of a semi-complete digraph on a duplicate-free ground set *)
+
+Section Semi.
+Hypothesis Hcs : NoDup cs.
+Hypothesis Hsemi : forall a b, In a cs -> In b cs -> a <> b -> E a b = true \/ E b a = true.
+
+Definition rcount (a : cand) : nat := length (filter (hp a) cs).
+
+Lemma filter_ceqb_len1 : forall a (l : list cand), NoDup l -> In a l -> length (filter (ceqb a) l) = 1%nat.
+Proof.
+  intros a l Hnd. induction Hnd as [|x l Hx _ IH]; intros Ha; [destruct Ha|].
+  cbn [filter]. destruct (ceqb_spec a x) as [<-|Hax].
+  - cbn [length]. f_equal. rewrite filter_all_false; [reflexivity|].
+    intros y Hy. destruct (ceqb_spec a y) as [<-|]; [contradiction|reflexivity].
+  - apply IH. destruct Ha as [Ha|Ha]; [congruence|exact Ha].
+Qed.
+
+(* beat_size c = |Reach(c) \ {c}| *)
+Lemma bsz_succ : forall a, In a cs -> S (bsz a) = rcount a.
+Proof.
+  intros a Ha. unfold rcount, beat_size. rewrite (filter_len_split (ceqb a) (hp a) cs).
+  rewrite (Lib_rk.filter_ext_in cand (fun x => ceqb a x && hp a x) (ceqb a)).
+  - rewrite filter_ceqb_len1 by assumption. reflexivity.
+  - intros x _. destruct (ceqb_spec a x) as [<-|]; [|reflexivity]. rewrite hp_refl by exact Ha. reflexivity.
+Qed.
+
+Lemma hp_total : forall a b, In a cs -> In b cs -> hp a b = true \/ hp b a = true.
+Proof.
+  intros a b Ha Hb. destruct (cand_eq_dec cand ceqb ceqb_spec a b) as [->|Hab].
+  - left. apply hp_refl. exact Hb.
+  - destruct (Hsemi a b Ha Hb Hab) as [H|H]; [left|right]; apply hp_edge; assumption.
+Qed.
+
+Lemma rcount_le : forall a b, hp a b = true -> (rcount b <= rcount a)%nat.
+Proof.
+  intros a b Hab. unfold rcount. apply filter_len_mono. intros x _ Hbx. eapply hp_trans; eassumption.
+Qed.
+
+Lemma rcount_lt : forall a b, hp a b = true -> hp b a = false -> (rcount b < rcount a)%nat.
+Proof.
+  intros a b Hab Hba. unfold rcount. apply filter_len_strict.
+  - intros x _ Hbx. eapply hp_trans; eassumption.
+  - exists a. pose proof (hp_in_l a b Hab) as Ha. split; [exact Ha|]. split; [exact Hba|apply hp_refl; exact Ha].
+Qed.
+
+Theorem bsz_lt_iff : forall a b, In a cs -> In b cs ->
+  ((bsz b < bsz a)%nat <-> hp a b = true /\ hp b a = false).
+Proof.
+  intros a b Ha Hb. pose proof (bsz_succ a Ha) as Sa. pose proof (bsz_succ b Hb) as Sb.
+  destruct (hp a b) eqn:Hab; destruct (hp b a) eqn:Hba.
+  - pose proof (rcount_le a b Hab). pose proof (rcount_le b a Hba). split; [lia|intros [_ H']; discriminate].
+  - pose proof (rcount_lt a b Hab Hba). split; [auto|lia].
+  - pose proof (rcount_lt b a Hba Hab). split; [lia|intros [H' _]; discriminate].
+  - destruct (hp_total a b Ha Hb); congruence.
+Qed.
+
+Theorem bsz_eq_iff : forall a b, In a cs -> In b cs ->
+  (bsz a = bsz b <-> hp a b = true /\ hp b a = true).
+Proof.
+  intros a b Ha Hb. pose proof (bsz_succ a Ha) as Sa. pose proof (bsz_succ b Hb) as Sb.
+  destruct (hp a b) eqn:Hab; destruct (hp b a) eqn:Hba.
+  - pose proof (rcount_le a b Hab). pose proof (rcount_le b a Hba). split; [auto|lia].
+  - pose proof (rcount_lt a b Hab Hba). split; [lia|intros [_ H']; discriminate].
+  - pose proof (rcount_lt b a Hba Hab). split; [lia|intros [H' _]; discriminate].
+  - destruct (hp_total a b Ha Hb); congruence.
+Qed.
+
+Lemma bsz_le_hp : forall a b, In a cs -> In b cs -> (bsz b <= bsz a)%nat -> hp a b = true.
+Proof.
+  intros a b Ha Hb Hle. destruct (Nat.eq_dec (bsz a) (bsz b)) as [He|Hne].
+  - apply (bsz_eq_iff a b Ha Hb) in He. tauto.
+  - assert (Hlt : (bsz b < bsz a)%nat) by lia. apply (bsz_lt_iff a b Ha Hb) in Hlt. tauto.
+Qed.
+
+(* the distinct sizes, in decreasing order *)
+Definition sizes : list nat := fold_right insert_desc_nat [] (map bsz cs).
+
+Lemma fold_insert_In : forall l k, In k (fold_right insert_desc_nat [] l) <-> In k l.
+Proof.
+  intros l k. induction l as [|x l IH]; cbn [fold_right]; [tauto|].
+  rewrite insert_desc_nat_In, IH. cbn [In]. intuition.
+Qed.
+
+Lemma fold_insert_sorted : forall l, StronglySorted gt (fold_right insert_desc_nat [] l).
+Proof.
+  intros l. induction l as [|x l IH]; cbn [fold_right]; [constructor|].
+  apply insert_desc_nat_sorted. exact IH.
+Qed.
+
+Lemma sizes_In : forall k, In k sizes <-> exists c, In c cs /\ bsz c = k.
+Proof.
+  intros k. unfold sizes. rewrite fold_insert_In, in_map_iff. split; intros [c [H1 H2]]; exists c; tauto.
+Qed.
+
+Lemma sizes_sorted : StronglySorted gt sizes.
+Proof. apply fold_insert_sorted. Qed.
+
+Definition tier_at (k : nat) : list cand := filter (fun c => Nat.eqb (bsz c) k) cs.
+
+Lemma tiers_unfold : tiers = map tier_at sizes.
+Proof. reflexivity. Qed.
+
+Lemma tier_at_In : forall k c, In c (tier_at k) <-> In c cs /\ bsz c = k.
+Proof. intros k c. unfold tier_at. rewrite filter_In, Nat.eqb_eq. tauto. Qed.
+
+Lemma tiers_In : forall T, In T tiers <-> exists k, In k sizes /\ T = tier_at k.
+Proof.
+  intros T. rewrite tiers_unfold, in_map_iff. split; intros [k [H1 H2]]; exists k; split; auto.
+Qed.
+
+Theorem tiers_perm : Permutation (concat tiers) cs.
+Proof.
+  rewrite tiers_unfold. unfold tier_at.
+  eapply Permutation_trans; [apply group_by_perm; apply sorted_gt_NoDup; exact sizes_sorted|].
+  rewrite filter_all_true; [apply Permutation_refl|].
+  intros c Hc. apply existsb_exists. exists (bsz c). split; [|apply Nat.eqb_refl].
+  apply sizes_In. exists c. auto.
+Qed.
+
+Theorem tiers_nonempty : forall T, In T tiers -> T <> [].
+Proof.
+  intros T HT. apply tiers_In in HT. destruct HT as [k [Hk ->]]. apply sizes_In in Hk.
+  destruct Hk as [c [Hc Hck]]. intros Hnil.
+  assert (Hin : In c (tier_at k)) by (apply tier_at_In; auto). rewrite Hnil in Hin. destruct Hin.
+Qed.
+
+Theorem tiers_NoDup : NoDup (concat tiers).
+Proof. eapply Permutation_NoDup; [apply Permutation_sym; exact tiers_perm|exact Hcs]. Qed.
+
+Lemma tiers_sub : forall T c, In T tiers -> In c T -> In c cs.
+Proof.
+  intros T c HT Hc. apply tiers_In in HT. destruct HT as [k [_ ->]]. apply tier_at_In in Hc. tauto.
+Qed.
+
+Lemma tiers_cover : forall c, In c cs -> exists T, In T tiers /\ In c T.
+Proof.
+  intros c Hc. apply (Permutation_in _ (Permutation_sym tiers_perm)) in Hc.
+  apply in_concat_iff in Hc. exact Hc.
+Qed.
+
+Lemma tiers_same : forall T a b, In T tiers -> In a T -> In b T -> bsz a = bsz b.
+Proof.
+  intros T a b HT Ha Hb. apply tiers_In in HT. destruct HT as [k [_ ->]].
+  apply tier_at_In in Ha. apply tier_at_In in Hb. destruct Ha as [_ ->]. destruct Hb as [_ ->]. reflexivity.
+Qed.
+
+Lemma tiers_earlier : forall T1 T2 a b, earlier tiers T1 T2 -> In a T1 -> In b T2 ->
+  (bsz b < bsz a)%nat.
+Proof.
+  intros T1 T2 a b [pre [mid [post Heq]]] Ha Hb. rewrite tiers_unfold in Heq.
+  apply map_eq_app in Heq. destruct Heq as [pre' [l1 [Hs [_ Heq]]]].
+  apply map_eq_cons in Heq. destruct Heq as [k1 [l2 [-> [<- Heq]]]].
+  apply map_eq_app in Heq. destruct Heq as [mid' [l3 [-> [_ Heq]]]].
+  apply map_eq_cons in Heq. destruct Heq as [k2 [post' [-> [<- _]]]].
+  pose proof sizes_sorted as Hsort. rewrite Hs in Hsort. apply SS_pair in Hsort.
+  apply tier_at_In in Ha. apply tier_at_In in Hb. destruct Ha as [_ ->]. destruct Hb as [_ ->]. exact Hsort.
+Qed.
+
+Lemma earlier_in : forall {A} (l : list A) x y, earlier l x y -> In x l /\ In y l.
+Proof.
+  intros A l x y [pre [mid [post ->]]]. split.
+  - apply in_or_app. right. left. reflexivity.
+  - apply in_or_app. right. right. apply in_or_app. right. left. reflexivity.
+Qed.
+
+(* two tiers are equal or one is earlier than the other *)
+Lemma in_two : forall {A} (l : list A) x y, In x l -> In y l -> x = y \/ earlier l x y \/ earlier l y x.
+Proof.
+  intros A l x y Hx Hy. apply in_split in Hx. destruct Hx as [l1 [l2 ->]].
+  apply in_app_or in Hy. destruct Hy as [Hy|[Hy|Hy]].
+  - right. right. apply in_split in Hy. destruct Hy as [l3 [l4 ->]].
+    exists l3, l4, l2. rewrite <- app_assoc. reflexivity.
+  - left. exact Hy.
+  - right. left. apply in_split in Hy. destruct Hy as [l3 [l4 ->]]. exists l1, l3, l4. reflexivity.
+Qed.
+
+Theorem tiers_disjoint : forall T1 T2 c, earlier tiers T1 T2 -> In c T1 -> In c T2 -> False.
+Proof.
+  intros T1 T2 c He H1 H2. pose proof (tiers_earlier T1 T2 c c He H1 H2). lia.
+Qed.
+
+(* in terms of reachability *)
+Lemma tier_later_hp : forall T1 T2 a b, earlier tiers T1 T2 -> In a T1 -> In b T2 ->
+  hp a b = true /\ hp b a = false.
+Proof.
+  intros T1 T2 a b He Ha Hb. destruct (earlier_in _ _ _ He) as [HT1 HT2].
+  apply bsz_lt_iff; [exact (tiers_sub T1 a HT1 Ha)|exact (tiers_sub T2 b HT2 Hb)|].
+  exact (tiers_earlier T1 T2 a b He Ha Hb).
+Qed.
+
+Lemma tier_same_hp : forall T a b, In T tiers -> In a T -> In b T -> hp a b = true.
+Proof.
+  intros T a b HT Ha Hb.
+  apply (bsz_eq_iff a b); [exact (tiers_sub T a HT Ha)|exact (tiers_sub T b HT Hb)|].
+  exact (tiers_same T a b HT Ha Hb).
+Qed.
+
+Lemma tier_mutual_in : forall T a x, In T tiers -> In a T -> hp a x = true -> hp x a = true -> In x T.
+Proof.
+  intros T a x HT Ha Hax Hxa. pose proof (tiers_sub T a HT Ha) as Hacs. pose proof (hp_in_l x a Hxa) as Hxcs.
+  apply tiers_In in HT. destruct HT as [k [_ ->]]. apply tier_at_In in Ha. apply tier_at_In.
+  split; [exact Hxcs|]. destruct Ha as [_ <-]. symmetry. apply bsz_eq_iff; auto.
+Qed.
+
+(* every member of an earlier tier has an edge to, and no edge from, every member of a later tier *)
+Theorem tiers_dominate_edges : forall T1 T2 a b, earlier tiers T1 T2 -> In a T1 -> In b T2 ->
+  E a b = true /\ E b a = false.
+Proof.
+  intros T1 T2 a b He Ha Hb. destruct (tier_later_hp T1 T2 a b He Ha Hb) as [Hab Hba].
+  destruct (earlier_in _ _ _ He) as [HT1 HT2].
+  pose proof (tiers_sub T1 a HT1 Ha) as Hacs. pose proof (tiers_sub T2 b HT2 Hb) as Hbcs.
+  assert (Hnba : E b a = false).
+  { destruct (E b a) eqn:Eba; [|reflexivity]. rewrite (hp_edge b a Hbcs Hacs Eba) in Hba. discriminate. }
+  split; [|exact Hnba].
+  assert (Hne : a <> b). { intros ->. rewrite Hab in Hba. discriminate. }
+  destruct (Hsemi a b Hacs Hbcs Hne) as [H|H]; [exact H|congruence].
+Qed.
+
+(* a tier cannot be split into two parts with no edge from the second to the first *)
+Theorem tiers_minimal_edges : forall T T1 T2 a1 b2, In T tiers ->
+  (forall c, In c T <-> In c T1 \/ In c T2) ->
+  (forall c, In c T1 -> In c T2 -> False) ->
+  In a1 T1 -> In b2 T2 ->
+  (forall a b, In a T1 -> In b T2 -> E b a = false) -> False.
+Proof.
+  intros T T1 T2 a1 b2 HT Hsplit Hdisj Ha1 Hb2 Hno.
+  assert (Ha1T : In a1 T) by (apply Hsplit; left; exact Ha1).
+  assert (Hb2T : In b2 T) by (apply Hsplit; right; exact Hb2).
+  pose proof (tier_same_hp T b2 a1 HT Hb2T Ha1T) as Hba.
+  pose proof (tier_same_hp T a1 b2 HT Ha1T Hb2T) as Hab.
+  destruct (path_crossing (fun x => In x T1) b2 a1) as [u [v [Hu [Hv [Huv [Hnu [Hv1 [Hbu Hva]]]]]]]].
+  - intros c. destruct (in_dec (cand_eq_dec cand ceqb ceqb_spec) c T1); [left|right]; assumption.
+  - exact Hba.
+  - intros H. exact (Hdisj b2 H Hb2).
+  - exact Ha1.
+  - assert (HuT : In u T).
+    { apply (tier_mutual_in T b2 u HT Hb2T Hbu).
+      eapply hp_trans; [apply hp_edge; eassumption|]. eapply hp_trans; eassumption. }
+    apply Hsplit in HuT. destruct HuT as [Hu1|Hu2]; [contradiction|].
+    rewrite (Hno v u Hv1 Hu2) in Huv. discriminate.
+Qed.
+
+(* the top tier *)
+Theorem top_dominates_edges : forall T0 rest a b, tiers = T0 :: rest ->
+  In a T0 -> In b cs -> ~ In b T0 -> E a b = true /\ E b a = false.
+Proof.
+  intros T0 rest a b Heq Ha Hb Hnb. destruct (tiers_cover b Hb) as [T [HT HbT]].
+  rewrite Heq in HT. destruct HT as [<-|HT]; [contradiction|].
+  apply in_split in HT. destruct HT as [mid [post ->]].
+  apply (tiers_dominate_edges T0 T a b); [|exact Ha|exact HbT].
+  exists [], mid, post. exact Heq.
+Qed.
+
+Lemma top_bsz_max : forall T0 rest a b, tiers = T0 :: rest -> In a T0 -> In b cs -> (bsz b <= bsz a)%nat.
+Proof.
+  intros T0 rest a b Heq Ha Hb. destruct (tiers_cover b Hb) as [T [HT HbT]].
+  assert (HT0 : In T0 tiers) by (rewrite Heq; left; reflexivity).
+  rewrite Heq in HT. destruct HT as [<-|HT].
+  - rewrite (tiers_same T0 a b HT0 Ha HbT). apply le_n.
+  - apply in_split in HT. destruct HT as [mid [post ->]].
+    assert (He : earlier tiers T0 T) by (exists [], mid, post; exact Heq).
+    pose proof (tiers_earlier T0 T a b He Ha HbT). lia.
+Qed.
+
+Theorem top_least_edges : forall T0 rest D d, tiers = T0 :: rest ->
+  incl D cs -> In d D ->
+  (forall a b, In a D -> In b cs -> ~ In b D -> E b a = false) ->
+  incl T0 D.
+Proof.
+  intros T0 rest D d Heq HD Hd Hdom x Hx.
+  destruct (in_dec (cand_eq_dec cand ceqb ceqb_spec) x D) as [Hin|Hnin]; [exact Hin|exfalso].
+  assert (HT0 : In T0 tiers) by (rewrite Heq; left; reflexivity).
+  pose proof (tiers_sub T0 x HT0 Hx) as Hxcs.
+  assert (Hxd : hp x d = true).
+  { apply bsz_le_hp; [exact Hxcs|apply HD; exact Hd|]. eapply top_bsz_max; [exact Heq|exact Hx|apply HD; exact Hd]. }
+  destruct (path_crossing (fun c => In c D) x d) as [u [v [Hu [Hv [Huv [Hnu [HvD _]]]]]]].
+  - intros c. destruct (in_dec (cand_eq_dec cand ceqb ceqb_spec) c D); [left|right]; assumption.
+  - exact Hxd.
+  - exact Hnin.
+  - exact Hd.
+  - rewrite (Hdom v u HvD Hu Hnu) in Huv. discriminate.
+Qed.
+
+Lemma tiers_top_exists : cs <> [] -> exists T0 rest, tiers = T0 :: rest.
+Proof.
+  intros Hne.
+  assert (Hex : exists c, In c cs).
+  { clear -Hne. destruct cs as [|c l]; [congruence|]. exists c. left. reflexivity. }
+  destruct Hex as [c Hc]. destruct (tiers_cover c Hc) as [T [HT _]].
+  destruct tiers as [|T0 rest]; [destruct HT|]. exists T0, rest. reflexivity.
+Qed.
+
+Lemma tier_NoDup : forall T, In T tiers -> NoDup T.
+Proof.
+  intros T HT. apply tiers_In in HT. destruct HT as [k [_ ->]]. apply NoDup_filter. exact Hcs.
+Qed.
+
+Definition cw_edges (c : cand) : Prop := In c cs /\ forall d, In d cs -> d <> c -> E d c = false.
+
+Theorem top_of_cw : forall T0 rest c, tiers = T0 :: rest -> cw_edges c -> T0 = [c].
+Proof.
+  intros T0 rest c Heq [Hc Hcw].
+  assert (HT0 : In T0 tiers) by (rewrite Heq; left; reflexivity).
+  assert (Hincl : incl T0 [c]).
+  { apply (top_least_edges T0 rest [c] c Heq).
+    - intros x [<-|[]]. exact Hc.
+    - left. reflexivity.
+    - intros a b [<-|[]] Hb Hnb. apply Hcw; [exact Hb|]. intros ->. apply Hnb. left. reflexivity. }
+  pose proof (tiers_nonempty T0 HT0) as Hne. pose proof (tier_NoDup T0 HT0) as Hnd.
+  destruct T0 as [|x T0']; [congruence|].
+  assert (Hx : x = c). { destruct (Hincl x (or_introl eq_refl)) as [H|[]]. symmetry. exact H. }
+  subst x. f_equal. destruct T0' as [|y T0'']; [reflexivity|].
+  exfalso. inversion Hnd as [|? ? Hnotin _]; subst. apply Hnotin.
+  destruct (Hincl y (or_intror (or_introl eq_refl))) as [H|[]]. subst y. left. reflexivity.
+Qed.
+
+Theorem cw_of_top : forall T0 rest c, tiers = T0 :: rest -> T0 = [c] -> cw_edges c.
+Proof.
+  intros T0 rest c Heq ->.
+  assert (HT0 : In [c] tiers) by (rewrite Heq; left; reflexivity).
+  split; [apply (tiers_sub [c] c HT0); left; reflexivity|].
+  intros d Hd Hdc. apply (top_dominates_edges [c] rest c d Heq); [left; reflexivity|exact Hd|].
+  intros [H|[]]. congruence.
+Qed.
+
+End Semi.
+
 End Graph.
+
+(* ------------------------------------------------------------------ *)
+(** * The dominating tiers of an untied profile *)
+
+Section TiersOfProfile.
+Variable cand : Type.
+Variable ceqb : cand -> cand -> bool.
+Hypothesis ceqb_spec : forall a b, reflect (a = b) (ceqb a b).
+
+Notation profile := (profile cand).
+Notation ranking := (ranking cand).
+Notation pref_weight := (pref_weight cand ceqb).
+Notation beats := (beats cand ceqb).
+Notation untied_profile := (untied_profile cand).
+Notation ballot_fill := (ballot_fill cand ceqb).
+Notation pairwise_entries := (pairwise_entries cand ceqb).
+Notation edge := (edge cand ceqb).
+Notation tiers_of := (tiers_of cand ceqb).
+Notation dominating_tiers := (dominating_tiers cand ceqb).
+Notation has_condorcet_winner := (has_condorcet_winner cand ceqb).
+Notation dominating := (dominating cand ceqb).
+Notation condorcet_winner := (condorcet_winner cand ceqb).
+
+Variable p : profile.
+Hypothesis Hp : untied_profile p.
+
+Lemma dominating_tiers_unfold : forall fp, ballot_fill p = inl fp ->
+  dominating_tiers p = inl (tiers_of (pairwise_entries (ballots fp) (cands fp)) (cands fp)).
+Proof.
+  intros fp Hfp. unfold Pairwise.dominating_tiers, Pairwise.pairwise_graph. rewrite Hfp. reflexivity.
+Qed.
+
+Theorem dominating_tiers_total : exists ts, dominating_tiers p = inl ts.
+Proof.
+  destruct (c06_fill_total_proof cand ceqb ceqb_spec p Hp) as [fp Hfp].
+  eexists. apply dominating_tiers_unfold. exact Hfp.
+Qed.
+
+Lemma dominating_tiers_inv : forall ts, dominating_tiers p = inl ts ->
+  exists fp, ballot_fill p = inl fp /\
+             ts = tiers_of (pairwise_entries (ballots fp) (cands fp)) (cands fp).
+Proof.
+  intros ts Ht. destruct (c06_fill_total_proof cand ceqb ceqb_spec p Hp) as [fp Hfp].
+  exists fp. split; [exact Hfp|]. rewrite (dominating_tiers_unfold fp Hfp) in Ht. injection Ht as <-. reflexivity.
+Qed.
+
+Section WithFill.
+Variable fp : profile.
+Hypothesis Hfp : ballot_fill p = inl fp.
+
+Let es := pairwise_entries (ballots fp) (cands fp).
+Let cs := cands fp.
+
+Lemma cs_NoDup : NoDup cs.
+Proof. exact (fp_cands_NoDup cand ceqb ceqb_spec p fp Hp Hfp). Qed.
+
+Lemma cs_In : forall c, In c cs <-> In c (cands p).
+Proof. exact (fp_cands_In cand ceqb ceqb_spec p fp Hp Hfp). Qed.
+
+Lemma es_semi : forall a b, In a cs -> In b cs -> a <> b -> edge es a b = true \/ edge es b a = true.
+Proof.
+  intros a b Ha Hb Hab. apply cs_In in Ha. apply cs_In in Hb.
+  destruct (Qlt_le_dec (pref_weight (ballots p) a b) (pref_weight (ballots p) b a)) as [Hlt|Hle].
+  - right. apply (c06_edge_iff_proof cand ceqb ceqb_spec p fp Hp Hfp). repeat split; auto. apply Qlt_le_weak. exact Hlt.
+  - left. apply (c06_edge_iff_proof cand ceqb ceqb_spec p fp Hp Hfp). repeat split; auto.
+Qed.
+
+Lemma noedge_iff_beats : forall a b, In a (cands p) -> In b (cands p) -> a <> b ->
+  (edge es b a = false <-> beats (ballots p) a b).
+Proof.
+  intros a b Ha Hb Hab. unfold PairwiseSpec.beats. rewrite <- not_true_iff_false.
+  unfold es. rewrite (c06_edge_iff_proof cand ceqb ceqb_spec p fp Hp Hfp). split.
+  - intros Hno. apply Qnot_le_lt. intros Hle. apply Hno. repeat split; auto.
+  - intros Hlt [_ [_ [_ Hle]]]. apply (Qlt_not_le _ _ Hlt). exact Hle.
+Qed.
+
+Lemma beats_irrefl : forall c, ~ beats (ballots p) c c.
+Proof. intros c. unfold PairwiseSpec.beats. apply Qlt_irrefl. Qed.
+
+Lemma tiers_fp_partition :
+  Permutation (concat (tiers_of es cs)) (cands p) /\
+  (forall T, In T (tiers_of es cs) -> T <> []) /\
+  (forall T1 T2 c, earlier (tiers_of es cs) T1 T2 -> In c T1 -> In c T2 -> False).
+Proof.
+  split; [|split].
+  - eapply Permutation_trans; [apply tiers_perm|]. exact (c06_fill_cands_proof cand ceqb ceqb_spec p fp Hp Hfp).
+  - apply tiers_nonempty.
+  - apply tiers_disjoint.
+Qed.
+
+Lemma tiers_fp_dominate : forall T1 T2 a b, earlier (tiers_of es cs) T1 T2 -> In a T1 -> In b T2 ->
+  beats (ballots p) a b.
+Proof.
+  intros T1 T2 a b He Ha Hb.
+  destruct (tiers_dominate_edges cand ceqb ceqb_spec es cs cs_NoDup es_semi T1 T2 a b He Ha Hb) as [Hab Hba].
+  destruct (earlier_in _ _ _ He) as [HT1 HT2].
+  pose proof (tiers_sub cand ceqb es cs T1 a HT1 Ha) as Hacs.
+  pose proof (tiers_sub cand ceqb es cs T2 b HT2 Hb) as Hbcs.
+  apply noedge_iff_beats; [apply cs_In; exact Hacs|apply cs_In; exact Hbcs| |exact Hba].
+  intros ->. exact (tiers_disjoint cand ceqb es cs T1 T2 b He Ha Hb).
+Qed.
+
+Lemma tiers_fp_minimal : forall T T1 T2, In T (tiers_of es cs) ->
+  (forall c, In c T <-> In c T1 \/ In c T2) -> T1 <> [] -> T2 <> [] ->
+  (forall a b, In a T1 -> In b T2 -> beats (ballots p) a b) -> False.
+Proof.
+  intros T T1 T2 HT Hsplit H1 H2 Hbeat.
+  destruct T1 as [|a1 T1']; [congruence|]. destruct T2 as [|b2 T2']; [congruence|].
+  apply (tiers_minimal_edges cand ceqb ceqb_spec es cs cs_NoDup es_semi T (a1 :: T1') (b2 :: T2') a1 b2 HT Hsplit).
+  - intros c Hc1 Hc2. exact (beats_irrefl c (Hbeat c c Hc1 Hc2)).
+  - left. reflexivity.
+  - left. reflexivity.
+  - intros a b Ha Hb.
+    assert (Hacs : In a (cands p)).
+    { apply cs_In. apply (tiers_sub cand ceqb es cs T a HT). apply Hsplit. left. exact Ha. }
+    assert (Hbcs : In b (cands p)).
+    { apply cs_In. apply (tiers_sub cand ceqb es cs T b HT). apply Hsplit. right. exact Hb. }
+    apply noedge_iff_beats; [exact Hacs|exact Hbcs| |apply Hbeat; assumption].
+    intros ->. exact (beats_irrefl b (Hbeat b b Ha Hb)).
+Qed.
+
+Lemma tiers_fp_smith : forall T0 rest, tiers_of es cs = T0 :: rest ->
+  dominating (ballots p) (cands p) T0 /\
+  (forall D, D <> [] -> dominating (ballots p) (cands p) D -> incl T0 D).
+Proof.
+  intros T0 rest Heq.
+  assert (HT0 : In T0 (tiers_of es cs)) by (rewrite Heq; left; reflexivity).
+  split.
+  - split.
+    + intros c Hc. apply cs_In. exact (tiers_sub cand ceqb es cs T0 c HT0 Hc).
+    + intros a b Ha Hb Hnb.
+      destruct (top_dominates_edges cand ceqb ceqb_spec es cs cs_NoDup es_semi T0 rest a b Heq Ha) as [_ Hba];
+        [apply cs_In; exact Hb|exact Hnb|].
+      apply noedge_iff_beats; [apply cs_In; exact (tiers_sub cand ceqb es cs T0 a HT0 Ha)|exact Hb| |exact Hba].
+      intros ->. contradiction.
+  - intros D Hne [HD Hdom]. destruct D as [|d D']; [congruence|].
+    apply (top_least_edges cand ceqb ceqb_spec es cs cs_NoDup es_semi T0 rest (d :: D') d Heq).
+    + intros c Hc. apply cs_In. apply HD. exact Hc.
+    + left. reflexivity.
+    + intros a b Ha Hb Hnb. apply cs_In in Hb.
+      apply noedge_iff_beats; [apply HD; exact Ha|exact Hb| |apply Hdom; assumption].
+      intros ->. contradiction.
+Qed.
+
+Lemma cw_edges_iff : forall c, cw_edges cand ceqb es cs c <-> condorcet_winner (ballots p) (cands p) c.
+Proof.
+  intros c. unfold cw_edges, PairwiseSpec.condorcet_winner. rewrite cs_In. split.
+  - intros [Hc Hcw]. split; [exact Hc|]. intros d Hd Hdc.
+    apply noedge_iff_beats; [exact Hc|exact Hd|congruence|]. apply Hcw; [apply cs_In; exact Hd|exact Hdc].
+  - intros [Hc Hcw]. split; [exact Hc|]. intros d Hd Hdc. apply cs_In in Hd.
+    apply noedge_iff_beats; [exact Hc|exact Hd|congruence|]. apply Hcw; assumption.
+Qed.
+
+Lemma cs_nonempty : cs <> [].
+Proof.
+  destruct Hp as [_ [Hne Hall]]. destruct (ballots p) as [|x bs] eqn:Eb; [congruence|].
+  inversion Hall as [|? ? Hx _]; subst. destruct Hx as [Hrk [Hs [_ [Hincl _]]]].
+  assert (Hex : exists c, In c (listing cand x)).
+  { unfold listing. destruct (rk x) as [|g r]; [congruence|]. inversion Hs as [|? ? Hg _]; subst.
+    destruct g as [|c g]; [discriminate|]. exists c. rewrite flat_cons. left. reflexivity. }
+  destruct Hex as [c Hc]. apply Hincl in Hc. apply cs_In in Hc. intros Hnil. rewrite Hnil in Hc. destruct Hc.
+Qed.
+
+End WithFill.
+
+(* ---------- statements in terms of [dominating_tiers p] ---------- *)
+
+Theorem c06_tiers_partition_proof : forall ts, dominating_tiers p = inl ts ->
+  Permutation (concat ts) (cands p) /\
+  (forall T, In T ts -> T <> []) /\
+  (forall T1 T2 c, earlier ts T1 T2 -> In c T1 -> In c T2 -> False).
+Proof.
+  intros ts Ht. destruct (dominating_tiers_inv ts Ht) as [fp [Hfp ->]]. apply tiers_fp_partition. exact Hfp.
+Qed.
+
+Theorem c06_tiers_dominate_proof : forall ts T1 T2 a b, dominating_tiers p = inl ts ->
+  earlier ts T1 T2 -> In a T1 -> In b T2 -> beats (ballots p) a b.
+Proof.
+  intros ts T1 T2 a b Ht. destruct (dominating_tiers_inv ts Ht) as [fp [Hfp ->]]. apply tiers_fp_dominate. exact Hfp.
+Qed.
+
+Theorem c06_tiers_minimal_proof : forall ts T T1 T2, dominating_tiers p = inl ts -> In T ts ->
+  (forall c, In c T <-> In c T1 \/ In c T2) -> T1 <> [] -> T2 <> [] ->
+  (forall a b, In a T1 -> In b T2 -> beats (ballots p) a b) -> False.
+Proof.
+  intros ts T T1 T2 Ht. destruct (dominating_tiers_inv ts Ht) as [fp [Hfp ->]]. apply tiers_fp_minimal. exact Hfp.
+Qed.
+
+Theorem c06_smith_proof : forall T0 rest, dominating_tiers p = inl (T0 :: rest) ->
+  dominating (ballots p) (cands p) T0 /\
+  (forall D, D <> [] -> dominating (ballots p) (cands p) D -> incl T0 D).
+Proof.
+  intros T0 rest Ht. destruct (dominating_tiers_inv _ Ht) as [fp [Hfp Heq]].
+  apply (tiers_fp_smith fp Hfp T0 rest). symmetry. exact Heq.
+Qed.
+
+Theorem c06_tiers_top_exists_proof : exists T0 rest, dominating_tiers p = inl (T0 :: rest).
+Proof.
+  destruct (c06_fill_total_proof cand ceqb ceqb_spec p Hp) as [fp Hfp].
+  destruct (tiers_top_exists cand ceqb (pairwise_entries (ballots fp) (cands fp)) (cands fp) (cs_nonempty fp Hfp))
+    as [T0 [rest Heq]].
+  exists T0, rest. rewrite (dominating_tiers_unfold fp Hfp), Heq. reflexivity.
+Qed.
+
+Theorem c06_condorcet_iff_proof :
+  (has_condorcet_winner p = inl true <-> exists c, condorcet_winner (ballots p) (cands p) c) /\
+  (has_condorcet_winner p = inl true \/ has_condorcet_winner p = inl false) /\
+  (forall c, condorcet_winner (ballots p) (cands p) c ->
+             exists rest, dominating_tiers p = inl ([c] :: rest)).
+Proof.
+  destruct c06_tiers_top_exists_proof as [T0 [rest Ht]].
+  destruct (dominating_tiers_inv _ Ht) as [fp [Hfp Heq]]. symmetry in Heq.
+  assert (Hcw : forall c, condorcet_winner (ballots p) (cands p) c -> T0 = [c]).
+  { intros c Hc. apply (cw_edges_iff fp Hfp) in Hc.
+    exact (top_of_cw cand ceqb ceqb_spec _ _ (cs_NoDup fp Hfp) (es_semi fp Hfp) T0 rest c Heq Hc). }
+  assert (Hhas : has_condorcet_winner p = inl (Nat.eqb (length T0) 1)).
+  { unfold Pairwise.has_condorcet_winner. rewrite Ht. reflexivity. }
+  split; [|split].
+  - rewrite Hhas. split.
+    + intros H. injection H as H. apply Nat.eqb_eq in H.
+      destruct T0 as [|c [|c' T0']]; try discriminate. exists c. apply (cw_edges_iff fp Hfp).
+      exact (cw_of_top cand ceqb ceqb_spec _ _ (cs_NoDup fp Hfp) (es_semi fp Hfp) [c] rest c Heq eq_refl).
+    + intros [c Hc]. rewrite (Hcw c Hc). reflexivity.
+  - rewrite Hhas. destruct (Nat.eqb (length T0) 1); [left|right]; reflexivity.
+  - intros c Hc. exists rest. rewrite Ht, (Hcw c Hc). reflexivity.
+Qed.
+
+End TiersOfProfile.
+
+(* ------------------------------------------------------------------ *)
+(** * DominatingSets and CondoBorda *)
+
+Section RulesOfProfile.
+Variable cand : Type.
+Variable ceqb : cand -> cand -> bool.
+Hypothesis ceqb_spec : forall a b, reflect (a = b) (ceqb a b).
+
+Notation profile := (profile cand).
+Notation ranking := (ranking cand).
+Notation estate := (estate cand).
+Notation mstate := (mstate cand).
+Notation untied_profile := (untied_profile cand).
+Notation dominating_tiers := (dominating_tiers cand ceqb).
+Notation run_dominating := (run_dominating cand ceqb).
+Notation run_condo := (run_condo cand ceqb).
+Notation flat := (flat cand).
+Notation singletons := (singletons cand).
+
+Lemma ranking_validate_ok : forall p : profile, (forall b, In b (ballots p) -> rk b <> []) ->
+  ranking_validate cand p = inl tt.
+Proof.
+  intros p. unfold ranking_validate. induction (ballots p) as [|b bs IH]; intros H; [reflexivity|].
+  cbn [rfirst_err]. destruct (rk b) eqn:Er.
+  - exfalso. apply (H b); [left; reflexivity|exact Er].
+  - cbn [rbind]. apply IH. intros b' Hb'. apply H. right. exact Hb'.
+Qed.
+
+Lemma untied_ranking_validate : forall p, untied_profile p -> ranking_validate cand p = inl tt.
+Proof.
+  intros p [_ [_ Hall]]. apply ranking_validate_ok. intros b Hb.
+  rewrite Forall_forall in Hall. apply (Hall b Hb).
+Qed.
+
+Lemma remove_cand_prof_ok : forall (p : profile) removed c l, NoDup (cands p) ->
+  exists np, remove_cand_prof cand ceqb removed c l p = inl np.
+Proof.
+  intros p removed c l Hnd. unfold remove_cand_prof, mk_profile.
+  assert (Hd : has_dup cand ceqb (set_diff cand ceqb (cands p) removed) = false).
+  { apply (has_dup_false_iff cand ceqb ceqb_spec). apply (set_diff_NoDup cand ceqb). exact Hnd. }
+  rewrite Hd. eexists. reflexivity.
+Qed.
+
+Theorem c06_dominating_proof : forall p (s : mstate), untied_profile p ->
+  exists top rest, dominating_tiers p = inl (top :: rest) /\
+    run_dominating p s =
+      inl ([all_tied_state cand p; mkState 1 rest [top] (no_group cand) [] []], s).
+Proof.
+  intros p s Hp. destruct (c06_tiers_top_exists_proof cand ceqb ceqb_spec p Hp) as [top [rest Ht]].
+  exists top, rest. split; [exact Ht|].
+  unfold Rules.run_dominating, mbind, mlift. rewrite (untied_ranking_validate p Hp), Ht.
+  destruct (remove_cand_prof_ok p top true false (proj1 Hp)) as [np Hnp]. unfold ok. cbv beta iota. rewrite Hnp. reflexivity.
+Qed.
+
+(* CondoBorda: a successful run (valid script) has the shape described in the property *)
+Theorem c06_condoborda_proof : forall m p (s s' : mstate) sts, untied_profile p ->
+  run_condo m p s = inl (sts, s') ->
+  exists ts d0 s1,
+    dominating_tiers p = inl ts /\ borda_scores cand ceqb p = inl d0 /\
+    sts = [state_of_scores cand 0 (no_group cand) (no_group cand) [] d0; s1] /\
+    rnd s1 = 1%Z /\ eliminated s1 = no_group cand /\
+    (1 <= m <= Z.of_nat (length (cands p)))%Z /\
+    Z.of_nat (length (flat (elected s1))) = m /\
+    Permutation (flat (elected s1) ++ flat (remaining s1)) (cands p) /\
+    ((tiebreaks s1 = [] /\ s' = s /\ elected s1 ++ remaining s1 = ts)
+     \/
+     (exists pre g post l k,
+        ts = pre ++ g :: post /\ (0 < k < length g)%nat /\ Z.of_nat (k + length (flat pre)) = m /\
+        Permutation l g /\
+        elected s1 = pre ++ singletons (firstn k l) /\
+        remaining s1 = singletons (skipn k l) ++ post /\
+        tiebreaks s1 = [(g, singletons l)] /\
+        (forall x a y b z qa qb, l = x ++ a :: y ++ b :: z ->
+           In (a, qa) d0 -> In (b, qb) d0 -> qb <= qa))).
+Proof.
+  intros m p s s' sts Hp H. unfold Rules.run_condo, mbind, mlift in H.
+  rewrite (untied_ranking_validate p Hp) in H. unfold ok in H. cbv beta iota in H.
+  destruct (round0 cand ceqb SKBorda p) as [s0|e] eqn:H0; [|discriminate].
+  destruct (condo_step cand ceqb m p s) as [[[np s1] s2]|e] eqn:Hc; [|discriminate].
+  unfold mret, ok in H. injection H as <- <-.
+  unfold round0, score_fn, rbind in H0.
+  destruct (borda_scores cand ceqb p) as [d0|e] eqn:Hb; [|discriminate]. unfold ok in H0. injection H0 as <-.
+  unfold condo_step, mbind, mlift in Hc.
+  destruct (dominating_tiers p) as [ts|e] eqn:Ht; [|discriminate]. unfold ok in Hc. cbv beta iota in Hc.
+  destruct (elect_top_m cand ceqb ts m (Some p) (Some TBBorda) s) as [[[[el rem] tbi] s3]|e] eqn:He; [|discriminate].
+  destruct (remove_cand_prof cand ceqb (flat el) true false p) as [np'|e]; [|discriminate].
+  destruct (borda_scores cand ceqb np') as [d1|e]; [|discriminate].
+  unfold mret, ok in Hc. injection Hc as <- <- <-.
+  destruct (c06_tiers_partition_proof cand ceqb ceqb_spec p Hp ts Ht) as [Hperm [Hne Hdisj]].
+  assert (Hflat : Permutation (flat ts) (cands p)) by exact Hperm.
+  assert (Hnd : NoDup (flat ts)).
+  { eapply Permutation_NoDup; [apply Permutation_sym; exact Hflat|apply Hp]. }
+  assert (Hok : tb_profile_ok cand (Some p) (Some TBBorda) (flat ts)).
+  { cbn [tb_profile_ok]. intros pr Hpr. injection Hpr as <-. split; [apply Hp|].
+    intros c Hc. eapply Permutation_in; [exact Hflat|exact Hc]. }
+  assert (Hne' : Forall (fun g => g <> []) ts) by (apply Forall_forall; exact Hne).
+  destruct (elect_top_m_count_perm cand ceqb ceqb_spec ts m (Some p) (Some TBBorda) s s3 el rem tbi Hnd Hne' Hok He)
+    as [Hcount [Hpart Hlin]].
+  destruct (elect_top_m_shape cand ceqb ts m (Some p) (Some TBBorda) s s3 el rem tbi He) as [Hrange Hshape].
+  exists ts, d0. eexists. split; [reflexivity|]. split; [reflexivity|]. split; [reflexivity|].
+  cbn [rnd eliminated elected remaining tiebreaks].
+  split; [reflexivity|]. split; [reflexivity|].
+  split; [rewrite <- (Permutation_length Hflat); exact Hrange|].
+  split; [exact Hcount|].
+  split; [eapply Permutation_trans; [exact Hpart|exact Hflat]|].
+  destruct Hshape as [[-> [-> [Hr _]]]|Hshape].
+  - left. repeat split. exact Hr.
+  - right. destruct Hshape as [pre [g [post [t [kind [k [Hkind [Hr [Hk [Hk0 [Hkg [Htb [Hel [Hrem Htbi]]]]]]]]]]]]]].
+    injection Hkind as <-.
+    destruct (Hlin g t Htbi) as [l [Htl Hpl]].
+    exists pre, g, post, l, k. rewrite Htbi. subst t.
+    rewrite firstn_singletons in Hel. rewrite skipn_singletons in Hrem.
+    repeat split; try assumption.
+    intros x a y b z qa qb Hl Ha Hbq.
+    apply (tiebreak_set_order cand ceqb ceqb_spec g p TBBorda s s3 (singletons l) d0
+             (or_intror (conj eq_refl Hb)) (proj1 Hp) Htb l x a y b z qa qb eq_refl Hl Ha Hbq).
+Qed.
+
+End RulesOfProfile.
